@@ -153,8 +153,8 @@ func init() {
 		Setup:       validateOracle,
 		Timeout:     minutes(10, 60),
 		Cases: func(tier string, seed int64) []fw.Case {
-			l := mkCases(nil, "roundtrip", 32, seed, pick(tier, 2000, 40000))
-			l = mkCases(l, "engine", 32, seed, pick(tier, 50, 600))
+			l := mkCases(nil, "roundtrip", 32, seed, pick(tier, 2000, 160000))
+			l = mkCases(l, "engine", 32, seed, pick(tier, 50, 2400))
 			return l
 		},
 		Floors: func(string) map[string]int64 {
@@ -207,11 +207,11 @@ func init() {
 		Setup:       validateOracle,
 		Timeout:     minutes(10, 60),
 		Cases: func(tier string, seed int64) []fw.Case {
-			l := mkCases(nil, "fenfuzz", 32, seed, pick(tier, 15000, 300000))
+			l := mkCases(nil, "fenfuzz", 32, seed, pick(tier, 15000, 1500000))
 			l = append(l, fw.Case{Idx: len(l), Kind: "crafted"})
 			l = append(l, fw.Case{Idx: len(l), Kind: "squares"})
-			l = mkCases(l, "moves", 32, seed, pick(tier, 40, 600))
-			l = mkCases(l, "ucitext", 8, seed, pick(tier, 6, 200))
+			l = mkCases(l, "moves", 32, seed, pick(tier, 40, 2400))
+			l = mkCases(l, "ucitext", 8, seed, pick(tier, 6, 600))
 			return l
 		},
 		Floors: func(string) map[string]int64 {
